@@ -30,8 +30,8 @@ type c12Thread struct {
 type c12Plan struct {
 	Workers int         `json:"workers"`
 	Threads []c12Thread `json:"threads"`
-	Cross   bool        `json:"cross,omitempty"` // extra pair: A waits inside mutex x for a flag B sets inside mutex y
-	Kill    int         `json:"kill,omitempty"`  // >0: an extra thread is suspended by a debugger inside `mutex a` and then killed (StopThreads) after Kill-1 scheduling rounds
+	Cross   bool        `json:"cross,omitempty"`   // extra pair: A waits inside mutex x for a flag B sets inside mutex y
+	Kill    int         `json:"kill,omitempty"`    // >0: an extra thread is suspended by a debugger inside `mutex a` and then killed (StopThreads) after Kill-1 scheduling rounds
 	KillIn  int         `json:"kill_in,omitempty"` // nesting depth (same name) at which the killed thread is suspended
 }
 
